@@ -141,31 +141,62 @@ func checkC08(c *Ctx) {
 	}
 	c.check(len(promoteSites) == 1, "R1", "single OnPromote invocation site", nil, "%d invocation sites of the %s value in the library", len(promoteSites), m.OnPromote)
 	for _, s := range promoteSites {
-		top := topFunc(s.fn)
 		key := "OnPromote invoked in " + shortFn(s.fn)
-		if !containsFn(m.ClaimSet, top) {
-			c.viol("R1", key, s.in, "OnPromote is invoked outside the claim-set unit(s) %v: a promotion callback without a claim transition", fnNames(m.ClaimSet))
-			continue
-		}
-		// spawned by go after the claim store
+		// the invocation is reached only through goroutines started by a claim-set unit
 		var goSite ssa.Instruction
-		var claimStore ssa.Instruction
-		for _, sp := range m.Spawns() {
-			for _, t := range sp.Targets {
-				if (t == s.fn || m.staticReach(t, false)[s.fn]) && containsFn(m.ClaimSet, sp.Fn) {
-					goSite = sp.At
+		var top *ssa.Function
+		var viaSpawn func(f *ssa.Function, seen map[*ssa.Function]bool) bool
+		viaSpawn = func(f *ssa.Function, seen map[*ssa.Function]bool) bool {
+			if seen[f] {
+				return true
+			}
+			seen[f] = true
+			spawned := false
+			for _, sp := range m.Spawns() {
+				for _, t := range sp.Targets {
+					if t == f {
+						if !containsFn(m.ClaimSet, topFunc(sp.Fn)) {
+							return false
+						}
+						spawned = true
+						goSite, top = sp.At, topFunc(sp.Fn)
+					}
 				}
 			}
+			if f.Parent() != nil {
+				return spawned
+			}
+			sites := m.callers[f]
+			if len(sites) == 0 {
+				return spawned
+			}
+			for _, cs := range sites {
+				if cs.IsGo {
+					if sp := m.spawnAt(cs.Instr); sp == nil || !containsFn(m.ClaimSet, topFunc(sp.Fn)) {
+						return false
+					}
+					continue
+				}
+				if !viaSpawn(cs.Caller, seen) {
+					return false
+				}
+			}
+			return true
 		}
+		if !viaSpawn(s.fn, map[*ssa.Function]bool{}) || goSite == nil {
+			if !containsFn(m.ClaimSet, topFunc(s.fn)) {
+				c.viol("R1", key, s.in, "OnPromote is invoked outside the claim-set unit(s) %v and not only from a goroutine they start: a promotion callback without a claim transition", fnNames(m.ClaimSet))
+			} else {
+				c.viol("R1", key, s.in, "the OnPromote invocation is not in a goroutine started by the claim-set unit (a callback under the election mutex deadlocks API calls made from it)")
+			}
+			continue
+		}
+		var claimStore ssa.Instruction
 		eachInstr(top, func(in ssa.Instruction) {
 			if val, isConst, ok := m.claimStore(in); ok && isConst && val {
 				claimStore = in
 			}
 		})
-		if goSite == nil {
-			c.viol("R1", key, s.in, "the OnPromote invocation is not in a goroutine started by the claim-set unit (a callback under the election mutex deadlocks API calls made from it)")
-			continue
-		}
 		c.check(claimStore != nil && dominatesInstr(claimStore, goSite), "R1", "promotion after claim set in "+shortFn(top), goSite, "claim Store(true) dominates the go statement that runs OnPromote")
 		// token argument == value stored to the token field in this unit
 		var tokenStored *Sym
@@ -180,7 +211,7 @@ func checkC08(c *Ctx) {
 		if tokenStored == nil || len(args) < 2 {
 			c.viol("R1", "promotion token in "+shortFn(top), s.in, "the claim-set unit does not store the term token, or OnPromote is called without it")
 		} else {
-			got := m.Sym.Of(args[1])
+			got := m.Sym.Of(m.traceValue(args[1]))
 			c.check(got.String() == tokenStored.String(), "R1", "promotion token in "+shortFn(top), s.in, "OnPromote receives %s; the token field receives %s", got, tokenStored)
 		}
 	}
